@@ -1545,7 +1545,7 @@ def run():
                 "AlphaIdentifiers", "LayerGroupEnabledIDs", "LayerGroupInfo", "HalftoneScreens", "HalftoneScreen", "TransferFunctions",
                 "TransferFunction", "DisplayInfo", "AlphaChannel", "LayerSelectionIDs", "GridGuidesInfo", "PrintFlagsInfo",
                 "ResoulutionInfo", "PixelAspectRatio", "PrintScale", "PrintFlags", "ThumbnailResource", "ThumbnailResourceV4",
-                "VersionInfo", "URLList", "URLItem", "AlphaNamesUnicode", "AlphaNamesPascal", "PascalString",
+                "VersionInfo", "URLList", "URLItem", "AlphaNamesUnicode", "AlphaNamesPascal", "PascalString", "NumericElement",
                 # filter effects (Psd/FilterFx.v)
                 "FilterEffects", "FilterEffect", "FilterEffectChannel", "FilterEffectExtra",
                 # linked layers (Psd/Linked.v)
